@@ -4,7 +4,7 @@
 Require Extraction.
 Require ExtrOcamlBasic.
 From Coq Require Import NArith ZArith List.
-From V9 Require Import Lib.GoSem Lib.Bytes Gen.Consts Log.Ring Codec.Msg Codec.Pack Codec.Unpack Srv.Seq Srv.SeqSpec Recv.Recv Ufs.DirWindow Clnt.IO Srv.Conc Clnt.Model Ufs.Path Ufs.Handlers.
+From V9 Require Import Lib.GoSem Lib.Bytes Gen.Consts Log.Ring Codec.Msg Codec.Pack Codec.Unpack Srv.Seq Srv.SeqSpec Recv.Recv Ufs.DirWindow Clnt.IO Clnt.Version Srv.Conc Clnt.Model Ufs.Path Ufs.Handlers.
 
 Extraction Language OCaml.
 Extraction "model.ml"
@@ -17,7 +17,7 @@ Extraction "model.ml"
   Seq.seq_step Seq.conn_init Seq.start_cfg Seq.tfid Seq.takes_fid Seq.is_tattach Seq.ver_u Seq.ver_p
   SeqSpec.spec_step SeqSpec.vget SeqSpec.rules_ok SeqSpec.fid_ok SeqSpec.is_valid
   Recv.srv_run Recv.clnt_run Recv.srv_frames Recv.clnt_frames
-  DirWindow.dir_window DirWindow.listing DirWindow.readdir_chunks IO.frun
+  DirWindow.dir_window DirWindow.listing DirWindow.readdir_chunks IO.frun IO.open_iounit Version.clnt_connect Version.clnt_version_request Version.twrite_frame_len Version.tread_count Version.rread_frame_len
   Path.attach_path Path.ufs_walk Path.create_path Path.rename_dest Path.symlink_ok Path.symlink_resolves Path.clean Path.split_slash Path.fwalk
   Handlers.dir2qidtype Handlers.dir2npmode Handlers.stat_mtime Handlers.stat_length Handlers.create_plan Handlers.wstat_plan Handlers.omode2uflags
   Conc.step Conc.run Conc.init Model.crun Model.cinit_n Model.cstep Model.live_tags
